@@ -1,4 +1,5 @@
 import MirVerif.Lemmas.CArith
+import MirVerif.Lemmas.SemExt
 /-! C07: compile-time folding (`foldConst`, model of `check_assign_op` + final `convert_value`)
 against the documented result of the selected MIR instruction (`runtimeSem ∘ insnFor`). -/
 namespace MirVerif.CArith
@@ -65,5 +66,55 @@ theorem insnFor_signed (o : BinOp) (t : IType) (h : t.signed = true) :
 theorem insnFor_unsigned (o : BinOp) (t : IType) (h : t.signed = false) :
     insnFor o t = (aopU o, decide (t.width ≤ 32)) := by
   cases o <;> simp [insnFor, aopU, h]
+
+/-! ## comparisons -/
+
+theorem cCmpS_sext (c : CmpOp) (x y : W32) : cCmpS c (sext32 x) (sext32 y) = cCmpS c x y := by
+  cases c <;> simp only [cCmpS, BitVec.slt_eq_decide, BitVec.sle_eq_decide, toInt_sext32]
+  · simp only [Bool.beq_eq_decide_eq, ← BitVec.toInt_inj, toInt_sext32]
+  · simp only [bne, Bool.beq_eq_decide_eq, ← BitVec.toInt_inj, toInt_sext32]
+
+theorem cCmpU_zext (c : CmpOp) (x y : W32) : cCmpU c (zext32 x) (zext32 y) = cCmpU c x y := by
+  cases c <;> simp only [cCmpU, BitVec.ult_eq_decide, BitVec.ule_eq_decide, toNat_zext32]
+  · simp only [Bool.beq_eq_decide_eq, ← BitVec.toNat_inj, toNat_zext32]
+  · simp only [bne, Bool.beq_eq_decide_eq, ← BitVec.toNat_inj, toNat_zext32]
+
+/-- signed comparison on images = comparison of the mathematical values -/
+theorem cCmpS_val {n} (c : CmpOp) (x y : BitVec n) : cCmpS c x y = cCmp c x.toInt y.toInt := by
+  cases c <;> simp [cCmpS, cCmp, BitVec.slt_eq_decide, BitVec.sle_eq_decide, bne] <;>
+    simp [Bool.beq_eq_decide_eq, BitVec.toInt_inj]
+theorem cCmpU_val {n} (c : CmpOp) (x y : BitVec n) : cCmpU c x y = cCmp c (x.toNat : Int) (y.toNat : Int) := by
+  cases c <;> simp [cCmpU, cCmp, BitVec.ult_eq_decide, BitVec.ule_eq_decide, bne] <;>
+    simp [Bool.beq_eq_decide_eq, ← BitVec.toNat_inj, Int.ofNat_inj]
+
+def cmpS (c : CmpOp) : AOp := match c with | .eq => .eq | .ne => .ne | .lt => .lt | .le => .le | .gt => .gt | .ge => .ge
+def cmpU (c : CmpOp) : AOp := match c with | .eq => .eq | .ne => .ne | .lt => .ult | .le => .ule | .gt => .ugt | .ge => .uge
+
+theorem docBin_cmpS {n} (c : CmpOp) (x y : BitVec n) : docBin (cmpS c) x y = some (b2w (cCmpS c x y)) := by
+  rw [cCmpS_doc]; cases c <;> rfl
+theorem docBin_cmpU {n} (c : CmpOp) (x y : BitVec n) : docBin (cmpU c) x y = some (b2w (cCmpU c x y)) := by
+  cases c
+  · simp [cmpU, docBin, cCmpU, BitVec.toInt_inj, Bool.beq_eq_decide_eq]
+  · simp [cmpU, docBin, cCmpU, BitVec.toInt_inj, bne, Bool.beq_eq_decide_eq]
+  · exact (cmpU_lt x y).symm
+  · exact (cmpU_le x y).symm
+  · exact (cmpU_gt x y).symm
+  · exact (cmpU_ge x y).symm
+
+theorem cmpFor_signed (c : CmpOp) (t : IType) (h : t.signed = true) : cmpFor c t = (cmpS c, decide (t.width ≤ 32)) := by
+  cases c <;> simp [cmpFor, cmpS, h]
+theorem cmpFor_unsigned (c : CmpOp) (t : IType) (h : t.signed = false) : cmpFor c t = (cmpU c, decide (t.width ≤ 32)) := by
+  cases c <;> simp [cmpFor, cmpU, h]
+
+theorem cmp_rt_s32 (c : CmpOp) (x y : W32) :
+    docSem (cmpS c) true (sext32 x) (sext32 y) = some (b2w (cCmpS c (sext32 x) (sext32 y))) := by
+  simp only [docSem, if_true, lo32_sext32, docBin_cmpS, Option.map_some, sext32_b2w, cCmpS_sext]
+theorem cmp_rt_u32 (c : CmpOp) (x y : W32) :
+    docSem (cmpU c) true (zext32 x) (zext32 y) = some (b2w (cCmpU c (zext32 x) (zext32 y))) := by
+  simp only [docSem, if_true, lo32_zext32, docBin_cmpU, Option.map_some, sext32_b2w, cCmpU_zext]
+theorem cmp_rt_s64 (c : CmpOp) (x y : W64) : docSem (cmpS c) false x y = some (b2w (cCmpS c x y)) := by
+  simp only [docSem, Bool.false_eq_true, if_false, docBin_cmpS]
+theorem cmp_rt_u64 (c : CmpOp) (x y : W64) : docSem (cmpU c) false x y = some (b2w (cCmpU c x y)) := by
+  simp only [docSem, Bool.false_eq_true, if_false, docBin_cmpU]
 
 end MirVerif.CArith
